@@ -99,11 +99,22 @@ class Interp:
 
     MAX_STEPS = 20000
 
-    def __init__(self, env: Dict[str, Any], effect_methods: Dict[str, Callable[..., Any]], syms: Sequence[str] = ()) -> None:
+    def __init__(
+        self,
+        env: Dict[str, Any],
+        effect_methods: Dict[str, Callable[..., Any]],
+        syms: Sequence[str] = (),
+        funcs: Optional[Dict[str, Callable[..., Any]]] = None,
+        isinstance_hook: Optional[Callable[[Any, str], Optional[bool]]] = None,
+        method_defs: Optional[Dict[Tuple[str, str], ast.FunctionDef]] = None,
+    ) -> None:
         self.env = env
         self.effect_methods = effect_methods
         self.steps = 0
         self.syms = set(syms)
+        self.funcs = funcs or {}  # module-level functions given a model (name -> handler(args))
+        self.isinstance_hook = isinstance_hook
+        self.method_defs = method_defs or {}  # (model kind, method) -> source to interpret
 
     # ------------------------------------------------------------ statements
     def run(self, fn: ast.FunctionDef) -> Any:
@@ -408,7 +419,15 @@ class Interp:
                 except (TypeError, ValueError):
                     raise Unsupported(e, "(builtin on a model value)")
             if nm == "isinstance":
+                if self.isinstance_hook is not None and len(e.args) == 2:
+                    v = self.ev(e.args[0])
+                    classes = e.args[1].elts if isinstance(e.args[1], ast.Tuple) else [e.args[1]]
+                    verdicts = [self.isinstance_hook(v, norm(c)) for c in classes]
+                    if all(x is not None for x in verdicts):
+                        return any(verdicts)
                 raise Unsupported(e, "(isinstance on a model value)")
+            if nm in self.funcs and nm not in self.env:
+                return self.funcs[nm](self.elts(e.args))
             # any other function: opaque result (constructors, unite_values, ...)
             for a in e.args:
                 if not isinstance(a, ast.Starred):
@@ -422,6 +441,9 @@ class Interp:
                 if h is not None:
                     return h(recv, self.elts(e.args))
                 if isinstance(recv, Obj):
+                    md = self.method_defs.get((recv._kind, meth))
+                    if md is not None:
+                        return self.call_def(md, [recv] + self.elts(e.args), e)
                     v = recv.get(meth, e)
                     if callable(v):
                         return v(*self.elts(e.args))
@@ -433,6 +455,11 @@ class Interp:
             if isinstance(recv, list) and meth in ("append", "extend"):
                 getattr(recv, meth)(*args)
                 return None
+            if isinstance(recv, list) and meth == "index":
+                for i, x in enumerate(recv):
+                    if x is args[0]:
+                        return i
+                raise Unsupported(e, "(list.index miss)")
             if isinstance(recv, dict) and meth in ("items", "values", "keys", "get"):
                 r = getattr(recv, meth)(*args)
                 return list(r) if meth != "get" else r
@@ -442,6 +469,21 @@ class Interp:
                 return Opaque(meth)
             raise Unsupported(e, "(method on a concrete value)")
         raise Unsupported(e, "(call)")
+
+
+def call_def(self: "Interp", fn: ast.FunctionDef, args: List[Any], node: ast.AST) -> Any:
+    """Interpret another function of the model with positional arguments."""
+    names = [a.arg for a in fn.args.posonlyargs + fn.args.args]
+    if len(args) != len(names):
+        raise Unsupported(node, f"(arity of {fn.name})")
+    sub = Interp(dict(zip(names, args)), self.effect_methods, tuple(self.syms), self.funcs, self.isinstance_hook, self.method_defs)
+    sub.steps = self.steps
+    res = sub.run(fn)
+    self.steps = sub.steps
+    return res
+
+
+Interp.call_def = call_def  # type: ignore[attr-defined]
 
 
 def _both_prim(a: Any, b: Any) -> bool:
